@@ -80,8 +80,8 @@ func BFS(res *Result, o BFSOptions, newSys func() Sys) {
 	depthDone := 0
 	for depth := 0; depth < o.MaxDepth && len(frontier) > 0 && stopped == ""; depth++ {
 		var next []bfsNode
-		for ni, n := range frontier {
-			if o.Env != nil && ni%32 == 0 && o.Env.Expired() {
+		for _, n := range frontier {
+			if o.Env != nil && o.Env.Expired() {
 				stopped = "internal deadline reached"
 				break
 			}
